@@ -165,3 +165,39 @@ func ruleDET2(c *Ctx) []Obligation {
 		Detail: fmt.Sprintf("%d entry points, %d reachable functions scanned for stores to globals / through globals", len(roots), nfn)})
 	return obs
 }
+
+func init() {
+	register(&Rule{
+		Name:  "OPS-4",
+		Doc:   "Operands() and Succs() are pure views: they write no shared memory (a cached successor list goes stale when a target is later replaced through an operand slot)",
+		Floor: 70,
+		NeedS: true,
+		Run:   ruleOPS4,
+	})
+}
+
+func ruleOPS4(c *Ctx) []Obligation {
+	var obs []Obligation
+	e := c.effects()
+	roots := c.methodRoots([]string{pkgIR}, map[string]bool{"Operands": true, "Succs": true})
+	for _, r := range roots {
+		effs, _ := e.closure([]*ssa.Function{r})
+		var shared []string
+		seen := map[string]bool{}
+		for _, ef := range effs {
+			if ef.Fresh || seen[ef.Target] {
+				continue
+			}
+			seen[ef.Target] = true
+			shared = append(shared, ef.Kind+" "+ef.Target)
+		}
+		sort.Strings(shared)
+		o := Obligation{Key: shortFn(r) + " is pure", Pos: c.pos(r.Pos()), Verdict: OK, Detail: "no shared write"}
+		if len(shared) > 0 {
+			o.Verdict = VIOL
+			o.Detail = fmt.Sprintf("writes %s: the view is cached, so after a target is replaced through an operand slot (or the field is reassigned) the method keeps returning the old blocks", strings.Join(shared, ", "))
+		}
+		obs = append(obs, o)
+	}
+	return obs
+}
